@@ -68,11 +68,23 @@ fn update_hgignore_filters(hgignore_filters: &mut Vec<HgignoreFilter>, path: &Pa
 pub fn matches_hgignore_filter(hgignore_filters: &Vec<HgignoreFilter>, file_name: &str) -> bool {
     let mut matched = false;
 
-    for hgignore_filter in hgignore_filters {
-        let is_match = hgignore_filter.regex.is_match(file_name);
+    // a file below an ignored directory is ignored as well (hg's _dirignore), which matters
+    // when the search starts inside such a directory: test the path and each of its ancestors
+    let mut candidate = file_name;
+    loop {
+        for hgignore_filter in hgignore_filters {
+            if hgignore_filter.regex.is_match(candidate) {
+                matched = true;
+            }
+        }
 
-        if is_match {
-            matched = true;
+        if matched {
+            break;
+        }
+
+        match candidate.rfind('/') {
+            Some(pos) if pos > 0 => candidate = &candidate[..pos],
+            _ => break,
         }
     }
 
